@@ -401,6 +401,12 @@ def obligations(tier, seed):
             else:
                 obs.append(ob("c19.step.%s.n%d" % (op, n), "harness.c19", "h_step",
                               {"op": op, "n": n, "sizes": sizes, "fills": fills}, budget_s=budget))
+    if not q:   # the property's upper range: a long array with few pre-states
+        for op in ("get", "set", "del"):
+            for n, pers in ((13, [4, 5]), (40, [7])):
+                obs.append(ob("c19.step.%s.n%d" % (op, n), "harness.c19", "h_step",
+                              {"op": op, "n": n, "sizes": [1], "pers": pers, "fills": [2], "pres": [0, 1]},
+                              budget_s=budget))
     if q:   # one larger geometry whose length is not a multiple of the chunk size
         for op in ("get", "set", "del"):
             obs.append(ob("c19.step.%s.n5.per2" % op, "harness.c19", "h_step",
